@@ -231,6 +231,10 @@ class Recorder:
                     raise KeyError("injected")
                 if kind == "raise_index":    # an exception class the caller might be tempted to "handle" (wrong input shape?)
                     raise IndexError("injected: index 3 is out of bounds")
+                if kind == "raise_noargs":   # an exception created without arguments (bare `raise NotImplementedError`, a failed `assert`)
+                    raise NotImplementedError
+                if kind == "raise_valsub":   # a proper SUBCLASS of ValueError (what a failed Cholesky factorisation inside the target raises)
+                    raise np.linalg.LinAlgError("injected: matrix is not positive definite")
                 if kind == "raise_stop":     # an exception class with a meaning for Python's iteration protocol (a data iterator ran dry)
                     raise StopIteration("injected")
                 he = rec.spec.get("noise") == "specified"
